@@ -1341,6 +1341,7 @@ Proof.
   - exact (withdraw_preserves _ _ _ _ _ _ _ _ _ _ I R1 R2 R3 H).
   - exact (swap_in_preserves _ _ _ _ _ _ _ _ _ _ I R1 R2 R3 H).
   - exact (swap_out_preserves _ _ _ _ _ _ _ _ _ _ I R1 R2 R3 H).
+  - discriminate.
 Qed.
 
 Lemma step'_inv e s o : Inv e s -> Inv e (step' e s o).
@@ -1390,6 +1391,7 @@ Proof.
     do 6 eexists; exact A.
   - destruct (swap_out_inv _ _ _ _ _ _ _ _ _ _ I R1 R2 R3 H) as (p & p' & inn & fv & _ & _ & _ & _ & _ & _ & _ & _ & A).
     do 6 eexists; exact A.
+  - discriminate.
 Qed.
 
 (* coins only move between the caller and the module account, and are conserved *)
